@@ -69,7 +69,7 @@ def run(ck, facts, tier):
     tb = need_body(ck, facts, R, RENDER % "TraitDatum")
     w_map = {}
     if tb:
-        ms = enum_matches(tb.thir, "chalk_solve::rust_ir::WellKnownTrait")
+        ms = enum_matches(facts.thir(tb.key), "chalk_solve::rust_ir::WellKnownTrait")
         if len(ms) != 1:
             ck.violation(R, "writer-match", tb.where(), "expected one match on WellKnownTrait in TraitDatum's writer")
         else:
@@ -211,7 +211,7 @@ def run(ck, facts, tier):
         wb = facts.body(RENDER % datum)
         if wb is None:
             continue
-        ms_lang = enum_matches(wb.thir, "chalk_solve::rust_ir::WellKnownTrait")
+        ms_lang = enum_matches(facts.thir(wb.key), "chalk_solve::rust_ir::WellKnownTrait")
         lang_names = set()
         for m in ms_lang:
             lang_names |= set(string_literals(m))
